@@ -141,7 +141,7 @@ fn run<const B: usize, const L: usize>(p: &[&str]) -> String {
 
 fn dispatch(p: &[&str]) -> String {
     let bits: usize = p[1].parse().unwrap();
-    dispatch_bits!(bits, run, (p), [0, 1, 2, 3, 4, 5, 6, 7, 8, 12, 16, 31, 32, 33, 60, 63, 64, 65, 72, 96,
+    dispatch_bits!(bits, run, (p), [0, 1, 2, 3, 4, 5, 6, 7, 8, 12, 16, 24, 31, 32, 33, 52, 53, 54, 60, 63, 64, 65, 72, 96,
         100, 127, 128, 129, 160, 192, 200, 250, 255, 256, 257, 320, 384, 512, 521, 1024, 4096])
 }
 
